@@ -55,13 +55,12 @@ UNK = "zz_unknown"
 
 def cells(tier, seed):
     cats = [refs.cat(seed)] if tier == "quick" else [0, 1, 2]
-    # (first, it is the longest cell) the 5-variable graph: 1082 ordered partitions; step modes of the quick tier keep it at ~10^4 histories
-    for gid in GR.ORDER5:
+    # order: the small 3-variable graph G9 first (so that the replay file of a finding is a small cell), then the
+    # longest cell (5-variable G10: 1082 ordered partitions, always with the quick tier's step modes), then the rest
+    order = ["G9"] + GR.ORDER5 + [g for g in GR.ORDER if g != "G9"]
+    for gid in order:
         for k in cats:
-            yield {"graph": gid, "cat": k, "tier": "quick"}
-    for gid in GR.ORDER:
-        for k in cats:
-            yield {"graph": gid, "cat": k, "tier": tier}
+            yield {"graph": gid, "cat": k, "tier": "quick" if gid in GR.ORDER5 else tier}
 
 
 # ----------------------------------------------------------------------------------------
@@ -171,13 +170,13 @@ class Explorer:
         obj, err = self.replay(history)
         if err is not None:
             # conditioning a reachable state on admissible values was refused
-            parent, _ = self.replay(history[:-1])
+            obj_parent, _e = self.replay(history[:-1])
             res.refused += 1
             mode = history[-1][0]
-            self.fail("%s|condition|mode=%s" % (branch_of(parent), "keyword" if mode == "kw" else "positional"),
+            self.fail("%s|condition|mode=%s" % (branch_of(obj_parent), "keyword" if mode == "kw" else "positional"),
                       "conditioning on %s refused: %s: %s" % (list(history[-1][1]), type(err).__name__, str(err)[:200]),
                       history)
-            res.outcomes.add("cond-refused:%s:%s" % (branch_of(parent), mode[:3]))
+            res.outcomes.add("cond-refused:%s:%s" % (branch_of(obj_parent), mode[:3]))
             return
         key = frozenset(fixed)
         res.state("%s|%s" % (self.g.gid, ",".join(sorted(key))))
